@@ -107,6 +107,14 @@ def run(ctx):
     run_case(ctx, ser(dict(kind="degree", U=[F(0)] * 3 + [F(11, 20)] * 3 + [F(1)] * 3,
                            P=[(F(-3, 7), F(6)), (F(1, 2), F(-10)), (F(7), F(2, 3)), (F(-3), F(7, 5)), (F(9, 2), F(3, 4)), (F(0), F(7, 3))],
                            W=[F(4), F(2, 3), F(4, 5), F(5, 2), F(1), F(1, 5)], t=1, mode="forced")))
+    for i in range(budget(ctx, 4, 40)):
+        # multi-span curves elevated to a high final degree (7, 8, 10): binomials and Bezier elevation far beyond the tabulated sizes
+        p_, t_ = [(4, 3), (3, 4), (2, 5), (4, 4), (3, 5), (5, 5)][i % 6]
+        if i >= 4 and (p_ + t_) > 8 and ctx["tier"] == "quick":
+            continue
+        U = rand_kv(rng, p=p_, nint=1, maxmult=rng.randint(1, p_))
+        P = rand_points(rng, kv_info(U)[1], 1)
+        run_case(ctx, ser(dict(kind="degree", U=U, P=P, W=None, t=t_, mode="elevate")))
     for i in range(budget(ctx, 70, 900)):
         mode = rng.choice(["elevate", "elevate", "setter", "roundtrip", "roundtrip", "roundtrip", "reduce", "forced", "invalid"])
         U, P, W = rand_curve(rng, pmax=3, nintmax=2, force_zero=(i % 6 == 0))
